@@ -1,6 +1,10 @@
 // E7a - regex structure exporter. Reads a JSON array of regex pattern strings on stdin and
 // writes, for each, the regex-syntax HIR (the same parser/translator the `regex` crate that
-// smartcalc links uses) as a JSON tree. No matching is performed; all reasoning is in scv/.
+// smartcalc links uses) as a JSON tree.
+// A second mode (E7b, argv[1] == "find") evaluates configured patterns on given sample strings with the `regex` crate
+// itself: stdin is a JSON array of {"pattern", "hay"}; the answer lists, per item, the successive non-overlapping
+// leftmost-first matches (what Regex::captures_iter yields) with the spans of their named groups. Only data from
+// config.json and sample strings chosen by the rules are involved; no smartcalc code is run.
 use regex_syntax::hir::{Class, Hir, HirKind, Look};
 use serde_json::{json, Value};
 use std::io::Read;
@@ -45,9 +49,43 @@ fn hir_json(h: &Hir) -> Value {
     Value::Object(m)
 }
 
+fn find_mode(s: &str) {
+    let items: Vec<Value> = serde_json::from_str(s).expect("stdin: JSON array of {pattern, hay}");
+    let mut out = vec![];
+    let mut compiled: std::collections::HashMap<String, Result<regex::Regex, String>> = std::collections::HashMap::new();
+    for it in items.iter() {
+        let p = it["pattern"].as_str().unwrap_or("");
+        let hay = it["hay"].as_str().unwrap_or("");
+        let entry = compiled.entry(p.to_string()).or_insert_with(|| regex::Regex::new(p).map_err(|e| e.to_string()));
+        match entry {
+            Ok(re) => {
+                let names: Vec<String> = re.capture_names().flatten().map(|n| n.to_string()).collect();
+                let mut ms = vec![];
+                for c in re.captures_iter(hay) {
+                    let m0 = c.get(0).unwrap();
+                    let mut groups = serde_json::Map::new();
+                    for n in names.iter() {
+                        if let Some(g) = c.name(n) {
+                            groups.insert(n.clone(), json!([g.start(), g.end(), g.as_str()]));
+                        }
+                    }
+                    ms.push(json!({"start": m0.start(), "end": m0.end(), "text": m0.as_str(), "groups": groups}));
+                }
+                out.push(json!({"ok": true, "matches": ms}));
+            }
+            Err(e) => out.push(json!({"ok": false, "error": e.clone()})),
+        }
+    }
+    println!("{}", serde_json::to_string(&out).unwrap());
+}
+
 fn main() {
     let mut s = String::new();
     std::io::stdin().read_to_string(&mut s).unwrap();
+    if std::env::args().nth(1).as_deref() == Some("find") {
+        find_mode(&s);
+        return;
+    }
     let pats: Vec<String> = serde_json::from_str(&s).expect("stdin: JSON array of strings");
     let mut out = vec![];
     for p in pats.iter() {
